@@ -77,7 +77,8 @@ Definition run_script (s : list Z) : list Z :=
     if zn s 4 =? 0 then inl (zn s 5 + 11 * r) else inr (zn s 5) in
   let backup (r : Z) : Z + Z :=
     if zn s 6 =? 0 then inl (zn s 7 + 13 * r) else inr (zn s 7) in
-  let r := call st (pred_of (zn s 1)) inner backup (zn s 3) in
+  (* pred_mode / 4 only selects the builder call order in the harness (handle before or after the strategy) *)
+  let r := call st (pred_of (zn s 1 mod 4)) inner backup (zn s 3) in
   [Z.of_nat (length (inner_calls r)); hd (-1) (inner_calls r);
    Z.of_nat (length (backup_calls r)); hd (-1) (backup_calls r)] ++
   match out r with
